@@ -8,7 +8,8 @@
    yields the value of the real compact text>\t<1|0: real_consistent: the self-consistency checker of c15_consistent on the real view>\t<1|0: real_offsets: the
    module-offset checker of c15_offsets_checker on the real view>\t<1|0: real_sorted: keys_sorted (c15_keys_sorted) on the real view; wf field K =
    the register names / soft_errors objects of the state are not sorted (keys_hyp)>\t<the model's TEXT of every confidence (render_f32 of the model's bits), joined by ,>\t<1|0:
-   conf_text_ok (theorem c15_confidence_text) accepts every real text for the real bits>   (wf field: M = wf_ok and regs_ok hold but a frame's module is not a member of the module list) *)
+   conf_text_ok (theorem c15_confidence_text) accepts every real text for the real bits>\t<1|0: real_fn_offsets: the function-offset judgement of c15_function_offsets on the
+   real view against the function bases of the state>   (wf field: M = wf_ok and regs_ok hold but a frame's module is not a member of the module list) *)
 (* UTF-8 is done by the extracted Gallina encoder / strict decoder (Driver.encode_utf8 / decode_utf8) *)
 let bytes_of_string (s : string) : z list = List.init (String.length s) (fun i -> z_of_int (Char.code s.[i]))
 let add_cps (b : Buffer.t) (cps : z list) = List.iter (fun z -> Buffer.add_char b (Char.chr (int_of_z z))) (encode_utf8 cps)
@@ -236,6 +237,8 @@ let () =
                         (bytes_of_string (String.sub item (i + 1) (String.length item - i - 1))))
           (String.split_on_char ',' real_confs) in
         Buffer.add_string b (if conf_ok then "1" else "0");
+        Buffer.add_char b '\t';
+        Buffer.add_string b (if real_fn_offsets st real_cps then "1" else "0");
         print_endline (Buffer.contents b)
       end
     done
